@@ -654,6 +654,73 @@ fn pool_stress(make: fn() -> Arc<dyn PoolFace>, budget: std::time::Duration) -> 
     Ok(iters.load(SeqCst))
 }
 
+/// five-level pools, every thread in its OWN size class (different bins / bin mutexes, one pool-wide byte counter)
+fn five_level_multi_size_stress(lockfree: bool, budget: std::time::Duration) -> Result<u64, Fail> {
+    use std::sync::atomic::{AtomicBool, AtomicU64 as A64, Ordering::SeqCst};
+    enum P {
+        M(MutexBasedPool),
+        L(LockFreePool),
+    }
+    impl P {
+        fn alloc(&self, n: usize) -> Option<MemOffset> {
+            match self {
+                P::M(p) => p.alloc(n).ok(),
+                P::L(p) => p.alloc(n).ok(),
+            }
+        }
+        fn free(&self, o: MemOffset, n: usize) -> bool {
+            match self {
+                P::M(p) => p.free(o, n).is_ok(),
+                P::L(p) => p.free(o, n).is_ok(),
+            }
+        }
+        fn stats(&self) -> (usize, usize) {
+            let s = match self {
+                P::M(p) => p.stats(),
+                P::L(p) => p.stats(),
+            };
+            (s.used_memory, s.fragment_size)
+        }
+    }
+    // SAFETY of sharing: both pools are Sync
+    let pool = Arc::new(if lockfree { P::L(LockFreePool::new(fl_cfg()).expect("pool")) } else { P::M(MutexBasedPool::new(fl_cfg()).expect("pool")) });
+    unsafe impl Send for P {}
+    unsafe impl Sync for P {}
+    let stop = Arc::new(AtomicBool::new(false));
+    let fail: Arc<Mutex<Option<Fail>>> = Arc::new(Mutex::new(None));
+    let iters = Arc::new(A64::new(0));
+    let mut hs = Vec::new();
+    for (tid, size) in [64usize, 128, 256].into_iter().enumerate() {
+        let (pool, stop, fail, iters) = (pool.clone(), stop.clone(), fail.clone(), iters.clone());
+        hs.push(std::thread::spawn(move || {
+            let mut n = 0u64;
+            while !stop.load(SeqCst) {
+                n += 1;
+                if let Some(o) = pool.alloc(size) {
+                    if !pool.free(o, size) {
+                        fail.lock().unwrap().get_or_insert(Fail::new("free_failed", format!("thread {tid}: freeing a block of {size} bytes it owns failed")).with_class("stress"));
+                        stop.store(true, SeqCst);
+                    }
+                }
+            }
+            iters.fetch_add(n, SeqCst);
+        }));
+    }
+    std::thread::sleep(budget);
+    stop.store(true, SeqCst);
+    for h in hs {
+        let _ = h.join();
+    }
+    if let Some(f) = fail.lock().unwrap().take() {
+        return Err(f);
+    }
+    let (used, frag) = pool.stats();
+    if used != frag {
+        return Err(Fail::new("counters", format!("all threads joined and every block freed: used_memory {used} != fragment_size {frag} (every carved byte must be on a free list)")).with_class("stress"));
+    }
+    Ok(iters.load(SeqCst))
+}
+
 fn main() {
     use PAct::*;
     zverif::main_with("C08", |reg, _tier| {
@@ -753,6 +820,15 @@ fn main() {
                 name: format!("{pname} free-running stress (sampling)"),
                 describe: "3 uncontrolled threads allocate and free (0-2 blocks held each) on one pool; a block handed to a thread while another owns it, a failing free of an owned block, and - after all threads returned their blocks and were joined - the pool's counters and (where known) its population are checked. Catches races INSIDE one schedule step of E3".into(),
                 run: Box::new(move |d| pool_stress(mk, d)),
+                budget_quick_ms: 700,
+                budget_thorough_ms: 8000,
+            }));
+        }
+        for (lf, pname) in [(false, "five_level::MutexBasedPool"), (true, "five_level::LockFreePool")] {
+            reg.add(zverif::stress::Stress(zverif::stress::StressSpec {
+                name: format!("{pname}[three size classes] free-running stress (sampling)"),
+                describe: "3 uncontrolled threads, each allocating and freeing in its OWN size class (64 / 128 / 256 bytes: different bins, one pool-wide byte counter); after join every carved byte must be on a free list (used_memory = fragment_size)".into(),
+                run: Box::new(move |d| five_level_multi_size_stress(lf, d)),
                 budget_quick_ms: 700,
                 budget_thorough_ms: 8000,
             }));
